@@ -195,7 +195,16 @@ def drive(recipe):
     t["meta"]["nontrivial"] = any(it["col"] and len(it["v"]) > 0 for b in t["data"] for it in b["items"]) and \
         any(v["k"] != "int" for b in t["data"] for it in b["items"] for v in it["v"])
     try:
-        text = Cif(lib_data if lib_data is not None else data).to_string()
+        src = lib_data if lib_data is not None else data
+        before = enc_data(data)
+        text = Cif(src).to_string()
+        # writing is repeatable and leaves the caller's dictionary alone
+        if Cif(src).to_string() != text:
+            t["exc_ser"] = "NotRepeatable"
+            return t
+        if enc_data(data) != before:
+            t["exc_ser"] = "ArgumentMutated"
+            return t
     except Exception as e:          # an exception of the implementation is an observation
         t["exc_ser"] = type(e).__name__
         return t
